@@ -10,7 +10,7 @@ Ev == Trace[l]
 TInit == AbsInit /\ l = 1
 TNext == /\ l <= Len(Trace)
          /\ l' = l + 1
-         /\ CASE Ev.e = "init"     -> Reset(Ev.ids, Ev.kinds, Ev.hasStopFn, Ev.panics, Ev.failing, Ev.backoffs)
+         /\ CASE Ev.e = "init"     -> Reset(Ev.ids, Ev.kinds, Ev.hasStopFn, Ev.panics, Ev.failing, Ev.backoffs, IF "dep" \in DOMAIN Ev THEN Ev.dep ELSE FALSE)
               [] Ev.e = "wbegin"   -> WBegin(Ev.i, Ev.ctxdone, Ev.t)
               [] Ev.e = "wend"     -> WEnd(Ev.i, Ev.t)
               [] Ev.e = "stopcall" -> StopCall(Ev.t)
